@@ -5,8 +5,8 @@ W = "scylla-cql-core/src/serialize/writers.rs:"
 PROPERTY = {
     "title": "CQL value encoding conforms to the protocol and round-trips",
     "level": "other",
-    "level_text": "Mixed, reported separately: (proof, unbounded buffers/contents) Verus proves on the extracted real CellWriter/CellValueBuilder/RowWriter functions the framing every encoded value goes through: null = be32(-1), unset = be32(-2), a value = be32(len) ++ bytes with len > i32::MAX refused and nothing written, the builder's placeholder is back-patched with exactly the big-endian length of what follows and nothing else changes, value_count grows by one per cell. (complete / bounded) Kani compares each fixed-width native carrier's serialize output (every value, every one of the 20 native column types) with an independent spec encoder and round-trips it through deserialize; the same for inet (every IPv4/IPv6 address), the vint codec (every u64/i64), text (2-byte ASCII, the empty cell) and blob (<= 4 bytes).",
-    "level_note": "Trusted: Verus/Z3, Kani/CBMC; i32::to_be_bytes, slice copy_from_slice (external_body); Not covered: varint/decimal/duration bodies, collection/tuple/UDT carriers (their writers are proved, their element loops are not; binding a Vec already exceeds CBMC), feature-gated carriers.",
+    "level_text": "Mixed, reported separately: (proof, unbounded buffers/contents) Verus proves on the extracted real CellWriter/CellValueBuilder/RowWriter functions the framing every encoded value goes through: null = be32(-1), unset = be32(-2), a value = be32(len) ++ bytes with len > i32::MAX refused and nothing written, the builder's placeholder is back-patched with exactly the big-endian length of what follows and nothing else changes, value_count grows by one per cell. (complete / bounded) Kani compares each fixed-width native carrier's serialize output (every value, every one of the 20 native column types) with an independent spec encoder and round-trips it through deserialize; the same for inet (every IPv4/IPv6 address), the vint codec (every u64/i64), text (2-byte ASCII, the empty cell), blob (<= 4 bytes), varint (3 bytes), decimal (2 bytes, every scale) and duration (one field symbolic at a time).",
+    "level_note": "Trusted: Verus/Z3, Kani/CBMC; i32::to_be_bytes, slice copy_from_slice (external_body); Not covered: collection/tuple/UDT carriers (their writers are proved, their element loops are not; binding a Vec already exceeds CBMC), feature-gated carriers.",
     "technique": "contract-based deductive verification: Verus contracts on extracted writer functions (+ Kani harnesses vs. independent spec encoder for carriers)",
     "explanation": "framing layer: deductive proof (Verus). carriers: Kani harnesses, complete for fixed-width natives, bounded for variable-length and containers",
     "verus": [
@@ -38,9 +38,13 @@ PROPERTY = {
         Harness("c01_blob_slice", "C01.varlen.blob", "BOUNDED", "&[u8] -> blob: [int n] ++ bytes; decode(encode(b)) == b", bound="byte strings of <= 4 bytes, all values", crate="scylla-cql-core", functions=["scylla-cql-core/src/serialize/value.rs:SerializeValue for &[u8]", "scylla-cql-core/src/deserialize/value.rs:DeserializeValue for &[u8]"]),
         Harness("c01_inet_v4", "C01.varlen.inet_v4", "PROVED-C", "every IPv4 address: [int 4] ++ 4 octets; round trip; a 3-byte inet cell refused", crate="scylla-cql-core", functions=["scylla-cql-core/src/serialize/value.rs:SerializeValue for IpAddr", "scylla-cql-core/src/deserialize/value.rs:DeserializeValue for IpAddr"]),
         Harness("c01_inet_v6", "C01.varlen.inet_v6", "PROVED-C", "every IPv6 address: [int 16] ++ 16 octets; round trip", crate="scylla-cql-core", functions=["scylla-cql-core/src/serialize/value.rs:SerializeValue for IpAddr", "scylla-cql-core/src/deserialize/value.rs:DeserializeValue for IpAddr"]),
+        Harness("c01_varint_borrowed", "C01.varlen.varint", "BOUNDED", "CqlVarintBorrowed -> varint: [int n] ++ the two's-complement bytes verbatim", bound="3-byte values, all contents", crate="scylla-cql-core", functions=["scylla-cql-core/src/serialize/value.rs:SerializeValue for CqlVarintBorrowed"]),
+        Harness("c01_decimal_borrowed", "C01.varlen.decimal", "BOUNDED", "CqlDecimalBorrowed -> decimal: [int 4+n] ++ scale [int] ++ unscaled bytes, every scale", bound="2-byte unscaled values, all contents, all scales", crate="scylla-cql-core", functions=["scylla-cql-core/src/serialize/value.rs:SerializeValue for CqlDecimalBorrowed"]),
+        Harness("c01_duration_nanos", "C01.varlen.duration_nanos", "BOUNDED", "CqlDuration -> duration: [int n] ++ vint(months) vint(days) vint(nanoseconds); the three vints decode back to the fields and fill the cell exactly", bound="months = -3, days = 7, every nanoseconds value", crate="scylla-cql-core", timeout=900, functions=["scylla-cql-core/src/serialize/value.rs:SerializeValue for CqlDuration"]),
+        Harness("c01_duration_months", "C01.varlen.duration_months", "BOUNDED", "as above", bound="every months value, days = 0, nanoseconds = 0", crate="scylla-cql-core", timeout=900, functions=["scylla-cql-core/src/serialize/value.rs:SerializeValue for CqlDuration"]),
         Harness("c01_canary_i32_little_endian", "C01.kani.canary", "PROVED-C", "a false claim must be refuted", crate="scylla-cql-core", carries=False, canary=True),
     ],
     "trusted_base": ["Verus/Z3 soundness", "i32::to_be_bytes (big-endian)", "Vec slicing + copy_from_slice"],
     "assumptions": [],
-    "not_covered": ["varint/decimal/duration bodies", "collection/tuple/UDT carriers at any nesting (only the cell/row writers they go through are proved)", "carriers behind optional cargo features"],
+    "not_covered": ["collection/tuple/UDT carriers at any nesting (only the cell/row writers they go through are proved)", "carriers behind optional cargo features"],
 }
